@@ -509,6 +509,27 @@ REG['Pt30'] = Pt30
 REG['Seg30'] = Seg30
 """, {"Seg30": lambda ch, u: u.bytes(5)})
 
+# 31  the same field OBJECTS used in the bodies of two classes (a helper that returns ready-made fields)
+decl("sharedfields", """
+hdr31 = [Int(1), Data(until_marker=re.compile(b'[;,]')), Int(2).repeated(2)]
+
+class A31(Packet):
+    __bisturi__ = OPT
+    kind = hdr31[0]
+    name = hdr31[1]
+    pair = hdr31[2]
+
+class B31(Packet):
+    __bisturi__ = OPT
+    kind = hdr31[0]
+    name = hdr31[1]
+    pair = hdr31[2]
+    extra = Int(1)
+REG['A31'] = A31
+REG['B31'] = B31
+""", {"A31": lambda ch, u: _b(u.byte()) + u.bytes(1 + ch.draw("n", 3)) + [b";", b","][ch.draw("delim", 2)] + u.bytes(4),
+      "B31": lambda ch, u: _b(u.byte()) + u.bytes(1 + ch.draw("n", 3)) + [b";", b","][ch.draw("delim", 2)] + u.bytes(4) + _b(u.byte())})
+
 
 BY_NAME = {d["name"]: d for d in POOL}
 
